@@ -27,6 +27,11 @@ JudgeForm(c, P, f) ==
              ELSE IF c.json_known THEN Cl(tag("C12.json"), "skip")          \* schema classes on which the JSON codec has a recorded finding (C15)
              ELSE Tri(tag("C12.json"), f.json.ok /\ Len(f.json.docs) = 1 /\ JEq(f.json.docs[1], jenc.j)
                                        /\ f.jsonread.ok /\ Len(f.jsonread.recs) = 1 /\ nrmj.ok /\ VEqN(f.jsonread.recs[1], nrmj.v)),
+             \* keys absent from the JSON text take the defaults of the schema, under every form
+             IF "dropped" \notin DOMAIN c \/ ~jenc.ok \/ c.json_known THEN Cl(tag("C12.json_defaults"), "skip")
+             ELSE LET nd == NormJ(t, c.dropped, names, o) IN
+                  IF ~nd.ok THEN Cl(tag("C12.json_defaults"), "unspec")
+                  ELSE Tri(tag("C12.json_defaults"), f.jsondrop.ok /\ Len(f.jsondrop.recs) = 1 /\ VEqN(f.jsondrop.recs[1], nd.v)),
              Tri(tag("C12.validate"), f.validate.ok /\ f.validate.v = [p |-> "bool", b |-> TRUE]),
              Tri(tag("C12.canon"), f.canon.ok /\ f.canon.text = CanonText(CanonTree(t))),
              \* data generation under a fixed state of the random source gives the same values under every form
